@@ -366,6 +366,37 @@ def gen_session(rng, max_blocks=4):
     return ctor, edges, ops, adms, tags
 
 
+def gen_big_average(rng):
+    """histograms whose contents are LARGE compared with their spread over the histograms, then average() /
+    average_weighted() and a write: numerically fragile for any formula other than the two-pass definition
+    (E[x^2]-E[x]^2 cancels).  Integer contents and weights with a power-of-two sum: every intermediate of the two-pass
+    formulas is exactly representable, so correct rewrites agree to the last bit."""
+    nb = rng.randint(1, 4)
+    ctor = ("tuple", 0, nb, nb)
+    ws = rng.choice([[1.0, 1.0], [1.0, 1.0, 1.0, 1.0], [1.0, 1.0, 2.0], [1.0, 3.0], [2.0, 2.0], [0.5, 0.5, 1.0, 2.0]])
+    big = rng.choice([1.0e8, 2.0 ** 27, 3.0e7, 2.0 ** 30, 5.0e8])
+    ops = []
+    for j in range(len(ws)):
+        if j:
+            ops.append(("ah",))
+        for k in range(nb):
+            off = rng.choice([0.0, 0.0, 2.0, 4.0, 8.0, 6.0, 1.0])
+            if rng.random() < 0.7:
+                ops.append(("f", k + 0.5, big + off, "float"))
+            else:
+                ops.append(("fl", [k + 0.5, k + 0.5], ("l", [big, off]), "list"))
+    lab = [{c: f"h0:{c}" for c in ALL_COLS}]
+    if rng.random() < 0.4:
+        ops.append(("wr", None, lab, ""))
+    if all(w == 1.0 for w in ws) and rng.random() < 0.6:
+        ops.append(("av",))
+    else:
+        ops.append(("aw", list(ws), rng.choice(["list", "array"])))
+    ops.append(rng.choice([("wr", ["distribution", "stat_err+", "stat_err-"], lab, ""), ("wr", None, lab, ""), ("g", "e")]))
+    edges = [float(x) for x in make_hist(ctor).bin_edges_]
+    return ctor, edges, ops, readmit(ctor, ops)
+
+
 def readmit(ctor, ops, adms=None):
     """admissibility flags of a given op list (same independent bookkeeping)"""
     ref = Ref([float(x) for x in make_hist(ctor).bin_edges_])
@@ -534,7 +565,8 @@ def correspond(ctx):
                 "one / per-histogram / too few / incomplete label dictionaries), 1-5 bin uniform and non-uniform binnings, "
                 "up to 4 histograms; half of them built as <outputs> <mutation> <outputs> … with count-restoring round "
                 "trips (remove_bin+add_bin, add_bin+remove_bin, add_histogram…average) and literally repeated output "
-                "calls; the real object is touched only by the calls of the session and looked at in one of three ways "
+                "calls; one in twelve: contents large compared with their spread over the histograms (exactly "
+                "representable), then averaged and written; the real object is touched only by the calls of the session and looked at in one of three ways "
                 "(every accessor after every call / attribute reads only / not at all until the end); compared with the "
                 "model at every call: outcome, file cell by cell, accessor value, shapes + values of the five arrays, "
                 "edges; non-trivial = session with an output, then an accepted mutation, then another output; "
@@ -545,7 +577,10 @@ def correspond(ctx):
     n = ctx.n(250, 5000)
     cases, lines = [], []
     for j in range(n):
-        if j % 2:
+        if j % 12 == 11:
+            ctor, edges, ops, adms = gen_big_average(rng)
+            tags = {"large-contents-average"}
+        elif j % 2:
             ctor, edges, ops, adms, tags = gen_session(rng)
         else:
             ctor, edges, ops, adms = gen_history(rng)
@@ -568,6 +603,8 @@ def correspond(ctx):
         for p_ in pats:
             ctx.count(f"pattern/{p_}")
             ctx.count(f"pattern/{p_}/{mode}")
+        for p_ in tags:
+            ctx.count(f"built/{p_}")
         if any(kinds[i] in ("av", "aw", "ae") and "wr" in kinds[i + 1:] for i in range(len(kinds))):
             ctx.count("pattern/write-after-average")
         if any(kinds[i] in ("ab", "rb") and {"sc", "sl"} & set(kinds[i + 1:]) for i in range(len(kinds))):
@@ -867,7 +904,9 @@ def search(ctx, budget_s):
             ctx.violation(r[0], r[1], dict(input=case, detail=jsonable(r[2]), how_to_replay="./check C10 --replay <this file>"))
     limit = 20000 if ctx.thorough else 1500
     while time.time() - t0 < budget_s and n < limit:
-        if n % 2:       # sessions: outputs, a mutation (count-restoring round trips among them), outputs again
+        if n % 8 == 5:     # contents large compared with their spread over the histograms, then averaged
+            ctor, edges, ops, adms = gen_big_average(rng)
+        elif n % 2:     # sessions: outputs, a mutation (count-restoring round trips among them), outputs again
             ctor, edges, ops, adms, _tags = gen_session(rng)
         else:
             ctor, edges, ops, adms = gen_history(rng)
